@@ -434,11 +434,19 @@ def earcut_identity(ctx) -> tuple:
 
 
 def regenerate_loops(ctx, pin: bool = False):
+    """-> (skeletons, problems); problems = [(suspect, one-line summary + diff)], suspect = 'Class.method' / 'module.function' name that
+    the differential oracle uses to search for a concrete failing input.  Nothing is raised for a changed pinned text: a broken
+    obligation is reported together with the result of that search (props/c10.py)."""
     from translate.py2lean import lean_file, Unsupported
     from translate.py2lean_c10 import check_skeletons
-    skeletons = {}
+    skeletons, problems = {}, []
     for twin, suffix in (("py", "Py"), ("pyx", "Pyx")):
-        defs, skel, prog = build(ctx, twin)
+        try:
+            defs, skel, prog = build(ctx, twin)
+        except Unsupported as e:  # a cut no longer finds its statements: the function changed
+            msg = str(e)
+            problems.append((_suspect_of(msg), f"cut failed in the {twin} twin (source changed): {msg}"))
+            continue
         skeletons.update(skel)
         srcs = sorted(set((PYX if twin == "pyx" else PY).values())) + (PXD if twin == "pyx" else [])
         extra = "".join(d.sqrt_wrapper() + "\n" for d in defs if d.sqrt_params) + _inst(twin) + (factorial_table(prog) if twin == "pyx" else "")
@@ -448,12 +456,25 @@ def regenerate_loops(ctx, pin: bool = False):
         ctx.write_gen(f"TwinLoops{suffix}", text, srcs)
     eproblems, epins = earcut_identity(ctx)
     skeletons.update(epins)
-    problems = check_skeletons(skeletons, PINNED, write=pin) + eproblems
-    problems += lu_identity(ctx)
-    problems += deriv_identity(skeletons)
-    if problems:
-        raise Unsupported("C10 loop skeletons: " + "\n".join(problems))
-    return skeletons
+    if len([1 for _, m in problems if m.startswith("cut failed")]) == 0 or pin:
+        texts = check_skeletons(skeletons, PINNED, write=pin)
+    else:  # compare only what could be built
+        texts = [t for t in check_skeletons(skeletons, PINNED) if not t.endswith("no longer cut")]
+    texts += eproblems + lu_identity(ctx) + deriv_identity(skeletons)
+    problems += [(_suspect_of(t), t) for t in texts]
+    return skeletons, problems
+
+
+def _suspect_of(msg: str) -> str:
+    """name of the API function a problem text is about (used to pick the targeted search)"""
+    import re
+    head = msg.split("\n")[0]
+    m = re.search(r"::([A-Za-z_][\w.]*)", head) or re.search(r"\.pyx?: ([A-Za-z_][\w.]*)", head) or re.search(r"earcut-diff::(\w+)", head) \
+        or re.search(r"earcut: (\w+) ", head) or re.search(r"^(_?\w+) \(", head)
+    name = m.group(1) if m else head[:60]
+    if "earcut" in head:
+        return "mapbox_earcut." + name.split(".")[-1]
+    return name
 
 
 # ================================================================================================ correspondence X3
